@@ -251,6 +251,36 @@ fn de<T: serde::de::DeserializeOwned + serde::Serialize>(j: &str) -> Value {
 '''
 
 
+def mentioned_ids(x, acc):
+    if isinstance(x, dict):
+        if x.get("k") == "named" and "id" in x:
+            acc.add(x["id"])
+        for v in x.values():
+            mentioned_ids(v, acc)
+    elif isinstance(x, list):
+        for v in x:
+            mentioned_ids(v, acc)
+    return acc
+
+
+def mixed_alone(prog, pi):
+    """export entry "mixed": the probes exported alone before the last item is exported with its dependencies: every second item among
+    those the last item refers to (transitively, by a syntactic over-approximation; the judge re-checks against the real dependencies)"""
+    named = [pr for pr in prog["probes"] if pr["ty"]["k"] == "named"]
+    if not named:
+        return []
+    items = {it["name"]: it for it in prog["items"]}
+    reach, todo = set(), [named[-1]["ty"]["id"]]
+    while todo:
+        n = todo.pop()
+        if n in reach or n not in items:
+            continue
+        reach.add(n)
+        todo += list(mentioned_ids(items[n], set()))
+    cands = [pr for pr in named[:-1] if pr["ty"]["id"] in reach]
+    return [pr for qi, pr in enumerate(cands) if (qi + pi) % 2 == 1]
+
+
 def render_crate(programs):
     """programs: list of {items:[..], probes:[{ty, values, de?}]}"""
     L = [PRELUDE]
@@ -279,6 +309,16 @@ def render_crate(programs):
                 de_arms.append(f'    ({pi}, {qi}) => p{pi}::de_{qi}(j),')
         L.append("    v }")
         L.append("  pub fn export(dir: &std::path::Path, how: &str) -> Vec<Value> { let mut v = Vec::new();")
+        # "mixed": every second item the LAST item (statically) refers to is first exported ALONE (`TS::export`, no dependencies),
+        # then the last item with its dependencies
+        named = [pr for pr in prog["probes"] if pr["ty"]["k"] == "named"]
+        L.append('    if how == "mixed" {')
+        for pr in mixed_alone(prog, pi):
+            L.append(f"      let _ = export_one::<{ty_rs(pr['ty'])}>(dir, \"export\");")
+        if named:
+            L.append(f"      v.push(export_one::<{ty_rs(named[-1]['ty'])}>(dir, \"env\"));")
+        L.append('      return v;')
+        L.append('    }')
         for qi, pr in enumerate(prog["probes"]):
             if pr["ty"]["k"] == "named":
                 L.append(f"    v.push(export_one::<{ty_rs(pr['ty'])}>(dir, how));")
